@@ -14,6 +14,9 @@ pub struct CliCase<'a> {
     pub data: Arc<Vec<u8>>,
     pub file: Option<PathBuf>,
     pub execs: u64,
+    /// when non-zero: one in `stall_one_in` piped inputs (chosen by the data's hash) is fed by a producer that stalls
+    /// for 1.3 s after 60 % of the bytes
+    pub stall_one_in: u64,
 }
 
 impl<'a> CliCase<'a> {
@@ -23,6 +26,7 @@ impl<'a> CliCase<'a> {
             data: Arc::new(data),
             file: None,
             execs: 0,
+            stall_one_in: 0,
         }
     }
     pub fn file(&mut self) -> PathBuf {
@@ -44,7 +48,10 @@ impl<'a> CliCase<'a> {
         if let Input::File(p) = &input {
             args.insert(0, p.display().to_string());
         }
-        let spec = RunSpec::new(args, input);
+        let mut spec = RunSpec::new(args, input);
+        if stdin && self.stall_one_in > 0 && crate::tape::fnv64(&self.data) % self.stall_one_in == 0 {
+            spec.pause = Some((self.data.len() * 6 / 10, std::time::Duration::from_millis(1300)));
+        }
         let out = cli::run(&self.w.cli, &spec);
         self.execs += 1;
         (spec, out)
